@@ -6,6 +6,7 @@ object or list position): CBMC decides that `deserialize` fails whenever the ora
 says the payload does not conform.  `__typename` dispatch (tagged enums) is outside.
 """
 import krun
+import abstract_common as AC
 
 PROP = 'C03'
 
@@ -23,4 +24,4 @@ def main():
         assumptions=['SV / CheckSer harness models mirror serde_json::Value (validated natively on every run)',
                      'payload shapes: list lengths 0..2, one optional unknown member per object, symbolic i64 / f64 / bool, strings concrete (quick) or <= 1 symbolic byte (thorough)',
                      'operations: the catalogue under kgen/catalogue; interface / union / fragment-spread / ID positions are excluded (serde Content)'],
-        jobs=6)
+        jobs=6, pre=lambda out: AC.part(PROP, out, with_render=True))
